@@ -215,6 +215,14 @@ fn must_deliver(seed: u64, handshake_focus: bool, rejecting: bool) -> Params {
         let srv_dw = r.range(8_000, 120_000);
         p.server.data_window = srv_dw;
         let rtt = 2 * (p.net.delay_us + p.net.jitter_us) + 1_000;
+        // part of what a rejected stream carried is lost on the way and never arrives: it
+        // still counts against the connection window and has to be settled by the final size
+        if r.chance(2, 3) {
+            let l = *r.pick(&[0.03, 0.08, 0.15]);
+            for ph in p.net.phases.iter_mut() {
+                ph.loss = [ph.loss[0].max(l), ph.loss[1].max(l)];
+            }
+        }
         for c in p.clients.iter_mut() {
             let n = r.range(4, 12);
             for _ in 0..n {
@@ -235,7 +243,7 @@ fn must_deliver(seed: u64, handshake_focus: bool, rejecting: bool) -> Params {
                     code: r.range(0, 1000),
                     drop: r.chance(1, 2),
                 };
-                s.open_delay_us = r.range(0, 40) * rtt / 4;
+                s.open_delay_us = if r.chance(1, 2) { r.range(0, 8) * rtt / 4 } else { r.range(0, 40) * rtt / 4 };
                 if by_server {
                     c.server_streams.push(s);
                 } else {
@@ -305,6 +313,9 @@ fn never_recovers(seed: u64, index: u64) -> Params {
             p.net.phases.push(ph);
         }
     }
+    // a third of the runs: the path does not go silent, it keeps delivering rubbish (garbled
+    // copies, or replays of the last good datagram) - nothing an endpoint may count as life
+    p.net.blackhole_kind = (index % 3) as u8;
     // keep simulating until every endpoint had the time to give up
     let worst = p.server.idle_timeout_ms.max(p.clients[0].cfg.idle_timeout_ms)
         + p.server.handshake_ms.max(p.clients[0].cfg.handshake_ms);
@@ -959,6 +970,25 @@ pub fn make(profile: &str, seed: u64, index: u64) -> (Params, Extras) {
             // moves the threshold by more than the 1 ms timer granularity
             if seed & 1 == 0 && p.net.delay_us < 20_000 {
                 p.net.delay_us += 20_000;
+            }
+            if index % 4 == 1 {
+                // migration between paths with clearly different round-trip times while data
+                // is in flight: packets sent on the old path are judged against ITS estimates
+                let mut r = Rng::new(seed ^ 0xc09);
+                let n = p.clients.len() as u64;
+                p.net.delay_us = p.net.delay_us.clamp(15_000, 120_000);
+                for c in p.clients.iter_mut() {
+                    c.cfg.max_active_cids = c.cfg.max_active_cids.max(4);
+                    for s in c.streams.iter_mut() {
+                        s.fwd.len = s.fwd.len.max(150_000);
+                    }
+                }
+                p.server.max_active_cids = p.server.max_active_cids.max(4);
+                for _ in 0..r.range(1, 4) {
+                    p.net.rebinds.push((r.range(300_000, 4_000_000), r.below(n) as usize));
+                    p.net.rebind_delay_permille.push(*r.pick(&[100u64, 200, 300, 3000, 5000, 8000]));
+                }
+                p.net.rebinds.sort();
             }
             p
         }
